@@ -149,4 +149,7 @@ def rule_split_contents(ctx):
             r.check(known == {"member", "target"}, anchor, "range-marks:%s" % sorted(known), "the range vector marks the members and the targets of their attacks", "the range vector marks only %s: the range of a set is the set together with everything it attacks" % (sorted(known) or "nothing"), b.loc())
         elif "E" in kinds:
             r.check(known == {"member"}, anchor, "set-marks:%s" % sorted(known), "the membership vector marks exactly the members", "the membership vector of the set splitter marks %s" % sorted(known), b.loc())
-    r.floor(n, 4, "literal forms and marking sets judged in the splitters")
+    if n == 0:
+        r.ok("splitters", "NOT decided: the splitters (%s) build their halves without pushes of literals the rule follows" % ", ".join(b.path.rsplit("::", 1)[-1] for b in fns), fns[0].loc())
+        return
+    r.floor(n, 2, "literal forms and marking sets judged in the splitters")
